@@ -195,6 +195,21 @@ pub fn prec_stream() -> Vec<TextCase> {
         t.push(format!("a{}b", o1));
         t.push(format!("a {}{} b", o1, o1));
     }
+    // long chains: associativity must hold at every length (17, 33 and 70 operands), for one operator and for two
+    // operators of the same level alternating
+    for o1 in BIN_TOKS {
+        if o1 == "contains" || o1 == "in" {
+            continue;
+        }
+        for n in [17usize, 33, 70] {
+            t.push((0..n).map(|i| format!("a{}", i)).collect::<Vec<_>>().join(&format!(" {} ", o1)));
+        }
+    }
+    for (o1, o2) in [("and", "or"), ("==", "<"), ("+", "-"), ("*", "%"), ("&", "^")] {
+        t.push((0..40).map(|i| format!("a{}", i)).collect::<Vec<_>>().chunks(2).map(|c| c.join(&format!(" {} ", o1))).collect::<Vec<_>>().join(&format!(" {} ", o2)));
+    }
+    t.push(format!("{}a", "- ! ".repeat(20)));
+    t.push(format!("a{}", ".b.0".repeat(20)));
     for (x, y) in [("=", "=="), ("is_some", "some"), ("is_none", "none"), ("date_time", "datetime"), ("to_upper", "uppercase"), ("to_lower", "lowercase")] {
         if x == "=" {
             t.push("a = b".into());
